@@ -50,7 +50,7 @@ theorem absNodes_congr (ns ns' : List Node)
 theorem ref_build {fc : FC} {a : Abs} (r : Ref fc a) (pa' : PA) (f : FrameS fc.pa pa') (vs' : List Vote) (c h : Bool)
     (B : List Nat) (J F : Checkpoint) (hj : pa'.jEpoch = J.epoch) (hf : pa'.fEpoch = F.epoch)
     (hfresh : ∀ v ∈ vs', v.next = NodeRef.zero → v = Vote.zero)
-    (hnext : ∀ v ∈ vs', v.next = NodeRef.zero ∨ (aGet fc.pa.indices v.next).isSome)
+    (hnext : ∀ v ∈ vs', v.next = NodeRef.zero ∨ (aGet fc.pa.indices v.next).isSome ∨ v.cur = v.next)
     (hcur : ∀ v ∈ vs', v.cur = NodeRef.zero ∨ (v.curEpoch ≤ v.nextEpoch ∧ (v.curEpoch = v.nextEpoch → v.cur = v.next)))
     (hset : c = false → ∀ v ∈ vs', v.cur = v.next) :
     Ref { pa := pa', votes := vs', changed := c, spe := fc.spe, balances := B, pin := fc.pin, justified := J,
@@ -68,7 +68,7 @@ theorem ref_build {fc : FC} {a : Abs} (r : Ref fc a) (pa' : PA) (f : FrameS fc.p
   jE := hj
   fE := hf
   fresh := hfresh
-  next_in := by intro v hv; show _ ∨ (aGet pa'.indices v.next).isSome = true; rw [f.indices]; exact hnext v hv
+  next_in := by intro v hv; show _ ∨ (aGet pa'.indices v.next).isSome = true ∨ _; rw [f.indices]; exact hnext v hv
   cur_le := hcur
   settled := hset
 
@@ -104,7 +104,7 @@ open Zrnt.ForkChoice Spec FC
 /-- the bookkeeping facts of `Ref` about one tracker -/
 structure VOK (indices : List (NodeRef × Idx)) (v : Vote) : Prop where
   fresh : v.next = NodeRef.zero → v = Vote.zero
-  next_in : v.next = NodeRef.zero ∨ (aGet indices v.next).isSome
+  next_in : v.next = NodeRef.zero ∨ (aGet indices v.next).isSome ∨ v.cur = v.next
   cur_le : v.cur = NodeRef.zero ∨ (v.curEpoch ≤ v.nextEpoch ∧ (v.curEpoch = v.nextEpoch → v.cur = v.next))
 
 theorem absVote_congr {v w : Vote} (h1 : w.next = v.next) (h2 : w.nextEpoch = v.nextEpoch) : absVote w = absVote v := by
@@ -165,12 +165,17 @@ theorem computeDeltasLoop_settle (indices : List (NodeRef × Idx)) (oldB newB : 
             · rename_i ds2 _
               refine cont { v with cur := v.next, curEpoch := v.nextEpoch } ds2 (absVote_congr rfl rfl) rfl ⟨?_, ?_, ?_⟩ h
               · intro e; exact absurd e hnext
-              · exact hv0.next_in
+              · exact Or.inr (Or.inr rfl)
               · exact Or.inr ⟨Nat.le_refl _, fun _ => rfl⟩
           · rename_i hn
-            rcases hv0.next_in with e | e
+            rcases hv0.next_in with e | e | e
             · exact absurd e hnext
             · rw [hn] at e; cases e
+            · -- applied vote for a node that is gone: neither index exists, the tracker is unchanged
+              have hcn : aGet indices v.cur = none := by rw [e]; exact hn
+              rw [hcn] at h
+              simp only at h
+              exact cont v _ rfl e hv0 h
       · rename_i hno
         have hc : v.cur = v.next := by
           rcases hv0.cur_le with e | ⟨h1, h2⟩
@@ -184,11 +189,11 @@ theorem computeDeltasLoop_settle (indices : List (NodeRef × Idx)) (oldB newB : 
 theorem computeDeltas_settle (indices : List (NodeRef × Idx)) (votes : List Vote) (oldB newB : List Nat)
     (ds : List Int) (vs' : List Vote) (hd : computeDeltas indices votes oldB newB = some (ds, vs'))
     (hfresh : ∀ v ∈ votes, v.next = NodeRef.zero → v = Vote.zero)
-    (hnext : ∀ v ∈ votes, v.next = NodeRef.zero ∨ (aGet indices v.next).isSome)
+    (hnext : ∀ v ∈ votes, v.next = NodeRef.zero ∨ (aGet indices v.next).isSome ∨ v.cur = v.next)
     (hcur : ∀ v ∈ votes, v.cur = NodeRef.zero ∨ (v.curEpoch ≤ v.nextEpoch ∧ (v.curEpoch = v.nextEpoch → v.cur = v.next))) :
     vs'.map absVote = votes.map absVote ∧ (∀ v ∈ vs', v.cur = v.next) ∧
     (∀ v ∈ vs', v.next = NodeRef.zero → v = Vote.zero) ∧
-    (∀ v ∈ vs', v.next = NodeRef.zero ∨ (aGet indices v.next).isSome) ∧
+    (∀ v ∈ vs', v.next = NodeRef.zero ∨ (aGet indices v.next).isSome ∨ v.cur = v.next) ∧
     (∀ v ∈ vs', v.cur = NodeRef.zero ∨ (v.curEpoch ≤ v.nextEpoch ∧ (v.curEpoch = v.nextEpoch → v.cur = v.next))) := by
   obtain ⟨h1, h2⟩ := computeDeltasLoop_settle indices oldB newB votes 0 _ ds vs' hd
     (fun v hv => ⟨hfresh v hv, hnext v hv, hcur v hv⟩)
@@ -380,7 +385,7 @@ theorem ref_processAttestation (fc : FC) (a : Abs) (hh : fc.held = false) (I : F
           rcases List.mem_or_eq_of_mem_set hx with h | h
           · exact hP x h
           · subst h
-            refine ⟨fun e => absurd e hne, Or.inr (by rw [hi]; rfl), ?_⟩
+            refine ⟨fun e => absurd e hne, Or.inr (Or.inl (by rw [hi]; rfl)), ?_⟩
             rcases hok with h0 | h0
             · exact Or.inl h0
             · rcases hw.cur_le with h1 | ⟨h1, _⟩
@@ -845,7 +850,7 @@ open Spec FC
 
 theorem RefOps.refEx2_fi : FI refExFC2 := by
   have hz : aGet refExFC2.pa.indices NodeRef.zero = none := by decide
-  refine PInv.mk refEx2_ok.1 refEx2_ok.2 hz (fun v hv => nomatch hv) ?_
+  refine PInv.mk refEx2_ok.1 refEx2_ok.2 hz ?_
   intro i n hn
   have hw : ∀ m ∈ refExFC2.pa.nodes, m.weight = 0 := by decide
   rw [hw n (List.mem_of_getElem? hn)]
